@@ -4,6 +4,7 @@ package gosym
 
 import (
 	"go/token"
+	"strings"
 	"time"
 
 	"golang.org/x/tools/go/ssa"
@@ -257,6 +258,9 @@ func (e *Engine) timeFormat(st *State, t TimeV, layout string) StrV {
 			two(t.S)
 		case "MST":
 			name := "UTC"
+			if t.Other {
+				return StrV{Opaque: true, Note: "zone abbreviation of the controller zone"}
+			}
 			if e.opt.Zone == 2 && !t.UTC.IsTrue() {
 				if t.Bef == nil || !t.UTC.IsFalse() {
 					return StrV{Opaque: true, Note: "zone abbreviation under zone view Z2"}
@@ -335,7 +339,7 @@ func (e *Engine) timeParse(st *State, layout string, s StrV, loc int, pos token.
 		// 8-bit arithmetic (value <= 99 whenever both are digits), then widened
 		return c.ZeroExt(c.BVAdd(c.BVMul(h, c.BV(10, 8)), l), 56)
 	}
-	t := TimeV{Y: e.bv64(0), M: e.bv64(1), D: e.bv64(1), H: e.bv64(0), Mi: e.bv64(0), S: e.bv64(0), Ns: e.bv64(0), UTC: e.tc.Bool(loc == 1)}
+	t := TimeV{Y: e.bv64(0), M: e.bv64(1), D: e.bv64(1), H: e.bv64(0), Mi: e.bv64(0), S: e.bv64(0), Ns: e.bv64(0), UTC: e.tc.Bool(loc == 1), Other: loc == 3}
 	hasYear := false
 	i := 0
 	zoneOK := c.True
@@ -379,6 +383,9 @@ func (e *Engine) timeParse(st *State, layout string, s StrV, loc int, pos token.
 			ok = c.And(ok, e.inRange(t.S, 0, 59))
 			i += 2
 		case "MST":
+			if loc == 3 {
+				panic(unsupported("time.Parse: zone abbreviation in the controller zone"))
+			}
 			if loc == 2 && e.opt.Zone == 2 {
 				// VFA / VFB: the named interval's offset decides the instant
 				isV := c.And(c.Eq(s.B[i], c.BV('V', 8)), c.Eq(s.B[i+1], c.BV('F', 8)))
@@ -510,7 +517,7 @@ type civilAlt struct {
 // resolveCivil maps requested civil fields in a location to the time.Time Go would build
 // (identity for UTC and fixed-offset zones; gap/overlap handling for the two-interval zone view).
 func (e *Engine) resolveCivil(st *State, t TimeV, pos token.Pos) []civilAlt {
-	if !t.UTC.IsTrue() && e.opt.Zone == 2 {
+	if t.Other || (!t.UTC.IsTrue() && e.opt.Zone == 2) {
 		return e.resolveCivilZ2(st, t, pos)
 	}
 	return []civilAlt{{st, t}}
@@ -664,6 +671,9 @@ func init() {
 		return t
 	})
 	stubs["(time.Time).Location"] = stubTimeMethod(func(e *Engine, st *State, t TimeV, args []Value, pos token.Pos) Value {
+		if t.Other {
+			return LocV{Kind: 3}
+		}
 		if t.UTC.IsTrue() {
 			return LocV{Kind: 1}
 		}
@@ -674,6 +684,12 @@ func init() {
 	})
 	stubs["(time.Time).In"] = stubTimeMethod(func(e *Engine, st *State, t TimeV, args []Value, pos token.Pos) Value {
 		l := args[0].(LocV)
+		if l.Kind == 3 || t.Other {
+			if l.Kind == 3 && t.Other {
+				return t
+			}
+			panic(unsupported("Time.In between the controller zone and another location"))
+		}
 		if (l.Kind == 1 && t.UTC.IsTrue()) || (l.Kind == 2 && t.UTC.IsFalse()) {
 			return t
 		}
@@ -762,7 +778,7 @@ func init() {
 			e.reportPanic(st, e.tc.True, "time: missing Location in call to Date", pos)
 			return []exit{{st: st, kind: exitPanic, pmsg: "time.Date nil location"}}
 		}
-		t := TimeV{Y: args[0].(*Term), M: args[1].(*Term), D: args[2].(*Term), H: args[3].(*Term), Mi: args[4].(*Term), S: args[5].(*Term), Ns: args[6].(*Term), UTC: e.tc.Bool(loc.Kind == 1)}
+		t := TimeV{Y: args[0].(*Term), M: args[1].(*Term), D: args[2].(*Term), H: args[3].(*Term), Mi: args[4].(*Term), S: args[5].(*Term), Ns: args[6].(*Term), UTC: e.tc.Bool(loc.Kind == 1), Other: loc.Kind == 3}
 		if xt, ok := e.extremeConstDate(t); ok {
 			// a concrete date whose year lies outside 0..9999 (outside the symbolic calendar model): its
 			// fields are normalised natively; it can be formatted and compared, nothing else
@@ -1400,4 +1416,37 @@ func (e *Engine) iteTime(g *Term, a, b TimeV) TimeV {
 		panic(unsupported("ite over time values of different kinds"))
 	}
 	return v.(TimeV)
+}
+
+// Times in the controller zone (LocV kind 3, TimeV.Other) support their civil fields, formatting and
+// IsZero only: the zone is a second symbolic two-interval zone, and conversions between it and the
+// process zone are not modelled.
+var otherZoneMethods = map[string]bool{"Year": true, "Month": true, "Day": true, "Hour": true, "Minute": true, "Second": true,
+	"Nanosecond": true, "Date": true, "Clock": true, "Format": true, "Location": true, "String": true, "IsZero": true, "In": true, "Weekday": true}
+
+func guardOtherZone() {
+	for name, f := range stubs {
+		if !strings.HasPrefix(name, "(time.Time).") || otherZoneMethods[strings.TrimPrefix(name, "(time.Time).")] {
+			continue
+		}
+		name, f := name, f
+		stubs[name] = func(e *Engine, st *State, fr *Frame, fn *ssa.Function, args []Value, pos token.Pos) []exit {
+			for _, a := range args {
+				if t, ok := a.(TimeV); ok && t.Other {
+					panic(unsupported(name + " of a time in the controller zone"))
+				}
+			}
+			return f(e, st, fr, fn, args, pos)
+		}
+	}
+}
+
+// declareControllerZoneAt: intrinsic verifControllerZoneAt(y, m, d) - the process zone is UTC and the
+// returned *time.Location is a symbolic two-interval zone anchored at the given day (the zone view of
+// declareZoneAt, attached to the location instead of time.Local).
+func (e *Engine) declareControllerZoneAt(st *State, y, m, d *Term) Value {
+	e.declareZoneAt(st, y, m, d)
+	e.opt.Zone = 0
+	e.stubsUsed["controller zone: a second symbolic two-interval zone (process zone UTC); only civil fields, Format and IsZero of times in it"] = true
+	return LocV{Kind: 3}
 }
